@@ -1,4 +1,5 @@
 import MpsVerif.Proofs.Frame
+import MpsVerif.Proofs.MuxInv
 /-!
 # C18 — socket and pipe transports deliver intact and to the right request
 
@@ -38,3 +39,78 @@ example :
   decide
 
 end Frame
+
+/-!
+Part 2 (multiplexing, `Model/Mux.lean`): any number of requesters, any number of connections, every
+interleaving of client senders/receivers, server receivers/responders and handler completions
+(`∀` action lists), every handler function, every id the allocator may legally hand out.
+-/
+namespace Mux
+
+/-- Every future that has been set holds the handler's response (or exception) to **its own**
+    payload — whatever the completion order of the handlers and whichever connections were used. -/
+theorem C18_mux_own_response (c : Cfg) (s : State) (hr : Reachable c s) :
+    ∀ k v, (k, v) ∈ s.results → ∃ r, s.reqs[k]? = some r ∧ v = c.handler r.data :=
+  fun k v h => ((all_reachable c hr).res_ok k v h).1
+
+/-- No future is set twice: a response goes to exactly one request. -/
+theorem C18_mux_at_most_once (c : Cfg) (s : State) (hr : Reachable c s) :
+    (s.results.map Prod.fst).Nodup := (all_reachable c hr).res_nd
+
+/-- The id-minting rule (a new Future's `id()` differs from the ids of the futures still unresolved)
+    makes the request ids in use distinct: the keys of `active` are distinct, each key is the id of
+    the future stored under it, and two unresolved requests never share an id. -/
+theorem C18_mux_ids_distinct (c : Cfg) (s : State) (hr : Reachable c s) :
+    (s.active.map Prod.fst).Nodup ∧
+    (∀ rid k, (rid, k) ∈ s.active → ∃ r, s.reqs[k]? = some r ∧ r.id = rid) ∧
+    (∀ k1 k2 r1 r2, s.reqs[k1]? = some r1 → s.reqs[k2]? = some r2 →
+      s.stage k1 ≠ .resolved → s.stage k2 ≠ .resolved → r1.id = r2.id → k1 = k2) :=
+  ⟨(all_reachable c hr).act_keys, fun rid k h => ((all_reachable c hr).act_ok rid k h).1,
+   (all_reachable c hr).ids_inj⟩
+
+/-- A response that arrives at the client always finds its request registered (`active.pop` never
+    raises `KeyError`, the receiving task never dies on an unmatched id), and the record carries the
+    handler's response to the payload of exactly the future it is matched with. -/
+theorem C18_mux_no_unmatched (c : Cfg) (s : State) (hr : Reachable c s) (ci : Nat) (cn : Conn)
+    (r : Rsp) (rest : List Rsp) (hc : s.conns[ci]? = some cn) (hb : cn.back = r :: rest) :
+    ∃ k q, lookup s.active r.rid = some k ∧ s.reqs[k]? = some q ∧ r.resp = c.handler q.data ∧
+      (step c s (.recv ci)).isSome = true := by
+  have hi := all_reachable c hr
+  obtain ⟨h1, ⟨q, hq, hresp⟩, _⟩ := hi.back_ok ci cn hc r (by rw [hb]; simp)
+  have hl := lookup_of_mem hi.act_keys h1
+  refine ⟨r.gk, q, hl, hq, hresp, ?_⟩
+  simp [step, hc, hb, hl]
+
+/-- `stream()` preserves input order: the outputs so far are exactly the first inputs, in order,
+    each paired with the handler's response to it — for any other traffic on the same client. -/
+theorem C18_stream_order (c : Cfg) (s : State) (hr : Reachable c s) :
+    s.sout = (s.sin.take s.sout.length).map (fun x => (x, c.handler x)) := by
+  have hi := all_reachable c hr
+  have h1 : s.sin.take s.sout.length = s.sout.map Prod.fst := by
+    rw [← hi.sin_eq]
+    have : s.sout.length = (s.sout.map Prod.fst).length := by simp
+    rw [this, List.take_left']
+    rfl
+  rw [h1, List.map_map]
+  have h2 : ∀ p ∈ s.sout, ((fun x => (x, c.handler x)) ∘ Prod.fst) p = p := by
+    intro p hp
+    obtain ⟨x, v⟩ := p
+    simp only [Function.comp]
+    rw [hi.sout_ok x v hp]
+  calc s.sout = s.sout.map id := by simp
+    _ = _ := (List.map_congr_left (fun p hp => (h2 p hp).symm))
+
+/-- non-vacuity: two connections, four requests (one through `stream`), the handlers complete out
+    of order (request 2 before request 0, request 1 answered first), id `100` is reused after its
+    first owner was resolved; every future holds its own response. -/
+example :
+    let c : Cfg := { nconn := 2, handler := fun x => if x % 2 = 0 then .ok (x * 10) else .err x }
+    (Core.run (step c) (init c)
+      [.submit 5 100, .submit 6 200, .ssubmit 7 300, .send 0, .send 1, .send 0, .srvRecv 0, .srvRecv 0,
+       .srvRecv 1, .finish 0 1, .finish 1 0, .respond 1, .recv 1, .finish 0 0, .respond 0, .respond 0,
+       .recv 0, .recv 0, .syield, .submit 8 100, .send 1, .srvRecv 1, .finish 1 0, .respond 1, .recv 1]).map
+      (fun s => (s.results, s.sout, s.active, s.reqs.map (·.id)))
+    = some ([(1, .ok 60), (0, .err 5), (2, .err 7), (3, .ok 80)], [(7, .err 7)], [], [100, 200, 300, 100]) := by
+  decide
+
+end Mux
